@@ -358,6 +358,12 @@ func (e *Engine) replayCircuit(l *Loaded, ob *Oblig, scratch string) (ok bool, l
 	ovFile := filepath.Join(dir, "ov.json")
 	os.WriteFile(ovFile, ovb, 0o644)
 	out, rerr := runGoTest(p.pkgDir, ovFile, p.rcType)
+	lastReplay.pkg = strings.TrimPrefix(strings.TrimPrefix(p.pkgDir, repoModuleDir), "/")
+	lastReplay.mark = "GOVC-REPLAY accepted=false"
+	if expectAccepted {
+		lastReplay.mark = "GOVC-REPLAY accepted=true"
+	}
+	lastReplay.bitDecomp = p.rcType != nil && p.rcType.Cmp(big.NewInt(2)) == 0
 	log = out
 	if len(log) > 6000 {
 		log = log[len(log)-6000:]
